@@ -255,6 +255,24 @@ def run_property(pid, tier, seed, relock=False, verbose=False):
         if q in P['functions'] and q not in deg_fns and kk not in ids:
             missing.append(k)
 
+    lean = None
+    if tier == 'thorough' and any('[Lean:' in a for a in assumptions):
+        # re-check the Lean file that the lemma instances are transcribed from (cached for an hour)
+        stamp = os.path.join(HERE, 'out', 'lemmas.ok')
+        if os.path.exists(stamp) and time.time() - os.path.getmtime(stamp) < 3600:
+            lean = True
+        else:
+            try:
+                pr = subprocess.run(['sh', os.path.join(HERE, 'tools', 'check_lemmas.sh')], capture_output=True, text=True, timeout=1500)
+                lean = 'LEMMAS-OK' in pr.stdout
+                if lean:
+                    os.makedirs(os.path.dirname(stamp), exist_ok=True)
+                    open(stamp, 'w').write('ok')
+                else:
+                    print('NOTE lean re-check of lemmas/Lemmas.lean failed: %s' % (pr.stdout + pr.stderr)[-400:])
+            except Exception as e:       # noqa: BLE001
+                lean = False
+                print('NOTE lean re-check could not run: %r' % (e,))
     wall = time.time() - t0
     level = P['level']
     n_obl, n_dis = len(proof_obls), len(discharged)
@@ -267,6 +285,7 @@ def run_property(pid, tier, seed, relock=False, verbose=False):
             'functions_under_contract': functions,
             'by_backend': by_backend, 'solver_time_s': round(solver_time, 2),
             'vacuity': {'guards': len(guards), 'guards_ok': len(guards) - len(vacuous)},
+            'lean_lemmas_rechecked_this_run': lean,
             'not_discharged': [{'id': o.id, 'verdict': r.verdict} for o, r in failed],
             'degraded': [{'function': q, 'reason': why} for q, why in degraded],
             'lock_missing': missing[:20],
